@@ -156,6 +156,8 @@ def workload(ctx, lentil):
 
         def run_scratch(buf, label, bucket):
             ctx.bucket(bucket)
+            # a result obtained earlier through the same buffer must not change when the buffer is used again
+            held = ctx.notes.get('_held')
             try:
                 o = lentil.propagate_fft(w, du, scratch=buf, **kw)
             except Exception as e:
@@ -170,6 +172,21 @@ def workload(ctx, lentil):
                 fs = o.field
             ctx.close('scratch=transparent', fs, ff, 1e-13, f'scratch|{label}|value',
                       'supplying a scratch buffer changed the result', dict(desc, scratch=list(buf.shape)), scale=scs)
+            if held is not None and held[0] is buf:
+                with probe.quiet():
+                    again = held[1].field
+                ctx.check(np.array_equal(again, held[2]), 'scratch=transparent', 'scratch|earlier-result-changed',
+                          'a wavefront returned earlier changed when its scratch buffer was used for another propagation',
+                          dict(desc, scratch=list(buf.shape)))
+            buf_before = None
+            ctx.notes['_held'] = (buf, o, fs.copy())
+            # ... nor when the caller overwrites the buffer afterwards
+            buf[...] = 7.0 - 3.0j
+            with probe.quiet():
+                after = o.field
+            ctx.check(np.array_equal(after, fs), 'scratch=transparent', 'scratch|result-aliases-buffer',
+                      'the returned field is a view of the scratch buffer (overwriting the buffer changed the result)',
+                      dict(desc, scratch=list(buf.shape)))
 
         run_scratch(np.zeros(tuple(int(x) for x in adv), complex), 'exact', 'scratch:exact')
         if mode in (0, 1):
@@ -222,3 +239,7 @@ def workload(ctx, lentil):
                                   lambda: lentil.propagate_fft(wseg, du, **kw), 'tilt|refusal|one-field-of-many',
                                   'a wavefront in which only one of several fields carries tilt metadata was not refused',
                                   dict(desc, tilted_field=which, fields=len(wseg.data)))
+
+
+def finish(ctx, lentil):
+    ctx.notes.pop('_held', None)
